@@ -2,11 +2,11 @@
 # usage: seed_eval.sh <seed id e.g. C03> <check id>... ; saves the seeded change under /verif/seeded/<id>/ (first time) and runs the
 # given checks (quick) against the seed's scratch worktree /tmp/seed/<id> (never against /repo while builders are using it)
 id="$1"; shift
-W=/tmp/seed/$id; D=/verif/seeded/$id
+W=${SEED_ROOT:-/tmp/seed}/$id; D=/verif/seeded/$id${SEED_SUFFIX:-}
 mkdir -p "$D"
 if [ ! -s "$D/patch.diff" ]; then
   git -C "$W" diff > "$D/patch.diff"
-  [ -d /tmp/seed/$id-demo ] && { rm -rf "$D/demo"; cp -r /tmp/seed/$id-demo "$D/demo"; rm -f "$D"/demo/*.log; }
+  [ -d ${SEED_ROOT:-/tmp/seed}/$id-demo ] && { rm -rf "$D/demo"; cp -r ${SEED_ROOT:-/tmp/seed}/$id-demo "$D/demo"; rm -f "$D"/demo/*.log; }
 fi
 mkdir -p /tmp/verif-mut; cp /verif/known_findings.json /tmp/verif-mut/
 for c in "$@"; do
